@@ -59,6 +59,47 @@ def traced(nodes, ctx, detail, name, pipeline=None):
     return res, recs, p, drv
 
 
+if os.environ.get("C10_FRESH"):
+    # child mode: one traced run in a fresh interpreter, nothing else has run before it
+    want, detail = os.environ["C10_FRESH"].split("|")
+    for name, nodes, ctx in CONFIGS:
+        if name == want:
+            r, t, _, _ = traced(nodes, ctx, detail, name)
+            print("FRESH" + json.dumps({"outcome": r, "trace": strip(t)}, sort_keys=True, default=str))
+    sys.exit(0)
+
+
+def fresh_process_trace(name, detail):
+    import subprocess
+    env = dict(os.environ, C10_FRESH=f"{name}|{detail}")
+    p = subprocess.run([sys.executable, os.path.abspath(__file__)], input="{}", capture_output=True, text=True, env=env)
+    line = next((l for l in p.stdout.splitlines() if l.startswith("FRESH")), None)
+    return json.loads(line[5:]) if line else None
+
+
+# what ran before in the process must not matter: after traced runs at OTHER detail levels, a run traces exactly what it traces
+# in a fresh interpreter
+for name, nodes, ctx in CONFIGS[:4]:
+    for detail in ("hash", "repr"):
+        ref = fresh_process_trace(name, detail)
+        evaluations += 1
+        for other, onodes, octx in CONFIGS[:2]:
+            for od in ("repr,context", "all", "context"):
+                try:
+                    traced(onodes, octx, od, other)
+                except Exception:      # noqa
+                    pass
+        r_h, t_h, _, _ = traced(nodes, ctx, detail, name)
+        distinct.add((name, detail, "after-other-detail-levels"))
+        if ref is None:
+            failures.append({"class": "fresh-process-reference-run-failed", "config": name, "detail": detail})
+        elif json.loads(json.dumps(strip(t_h), sort_keys=True, default=str)) != ref["trace"]:
+            a, b = json.loads(json.dumps(strip(t_h), sort_keys=True, default=str)), ref["trace"]
+            diff = next((i for i, (x, y) in enumerate(zip(a, b)) if x != y), None)
+            failures.append({"class": "trace-depends-on-what-ran-before-in-the-process", "config": name, "detail": detail, "first_differing_record": diff,
+                             "after_history": json.dumps(a[diff], sort_keys=True)[:300] if diff is not None else len(a),
+                             "fresh_process": json.dumps(b[diff], sort_keys=True)[:300] if diff is not None else len(b)})
+
 for name, nodes, ctx in CONFIGS:
     base, _ = outcome(nodes, ctx)
     evaluations += 1
@@ -77,7 +118,7 @@ for name, nodes, ctx in CONFIGS:
                              "b": json.dumps(strip(t2)[diff], sort_keys=True)[:300] if diff is not None else len(t2)})
     if len(samples) < 2:
         samples.append({"config": name, "outcome": base[:2], "records": [r["record_type"] for r in t1]})
-print(json.dumps({"bound": "9 configurations (plain, identical nodes, 3 sweeps, unresolvable parameter, type gate, context flow with rename/delete, unknown parameter) x 4 detail levels; unrelated runs in between",
+print(json.dumps({"bound": "9 configurations (plain, identical nodes, 3 sweeps, unresolvable parameter, type gate, context flow with rename/delete, unknown parameter) x 4 detail levels; unrelated runs in between; 4 configurations x 2 detail levels compared with a fresh interpreter after traced runs at other detail levels",
                   "evaluations": evaluations, "distinct_nontrivial": len(distinct),
                   "rule": "distinct = (configuration, detail level); outcome = returned data/context or exception type+message; traces compared after removing run_id, timestamps, timing, seq",
                   "failures": failures[:20], "samples": samples}, default=str))
